@@ -38,7 +38,8 @@ ASSUMPTIONS = [
 OUTSIDE = ('more than 3 same-named declarations, namespaces deeper than 2 below the root, reference '
            'spellings with more than 2 qualifying identifiers')
 
-PATHS = [[], ['a'], ['b'], ['a', 'a'], ['a', 'b'], ['b', 'a'], ['b', 'b']]
+# namespace names 'a' / 'ab': one is a string prefix of the other (identifier-wise comparison required)
+PATHS = [[], ['a'], ['ab'], ['a', 'a'], ['a', 'ab'], ['ab', 'a'], ['ab', 'ab']]
 KINDS = ['absent', 'interface', 'extern', 'enum']
 # a declaration option = (kind, path)
 DECL_OPTS = [('absent', None)] + [(k, p) for k in KINDS[1:] for p in PATHS]
@@ -139,7 +140,7 @@ def h_two_ports(si: int, w1: int, w2: int, a: int, b: int) -> bool:
 
 
 # ---- formal (event parameter) types --------------------------------------------------------------------
-EXT_OPTS = [('absent', None)] + [('extern', p) for p in PATHS] + [('extern', ['a', 'I']), ('extern', ['b', 'I'])]
+EXT_OPTS = [('absent', None)] + [('extern', p) for p in PATHS] + [('extern', ['a', 'I']), ('extern', ['ab', 'I'])]
 
 
 def _formal_type_case(ipath: List[str], written: List[str], decls, out_event: bool) -> bool:
